@@ -77,6 +77,38 @@ theorem single_sleep_bound (s s' : State) (id : Nat) (b : Backoffer) (cfg : Conf
     rw [hr, realSleep_eq_of_not_cut m sl hcut]
     exact sleepAllowed_equal_lower f sl ha hj hn hfu
 
+/-- The exponential step, for EVERY attempt count `n` (the model computes on unbounded integers, so there is no
+    overflow regime): between 0 and the cap … -/
+theorem expo_within_cap (base cap : Int) (n : Nat) (hb : 0 ≤ base) (hc : 0 ≤ cap) :
+    0 ≤ expo base cap n ∧ expo base cap n ≤ cap :=
+  ⟨expo_nonneg base cap n hb hc, expo_le_cap base cap n⟩
+
+/-- … and never shrinking as the attempts grow (once at the cap it stays there) -/
+theorem expo_monotone (base cap : Int) (n k : Nat) (hb : 0 ≤ base) : expo base cap n ≤ expo base cap (n + k) := by
+  induction k with
+  | zero => exact Int.le_refl _
+  | succ k ih => exact Int.le_trans ih (expo_mono base cap (n + k) hb)
+
+/-- In every reachable state and after any number of earlier attempts of the same kind, a sleep is never negative
+    (closures always have base ≥ 2; the config's cap is assumed ≥ 0): with the accounting of `sleptB` this makes
+    `totalSleep` non-decreasing along back-offs. -/
+theorem sleep_nonneg (M : Int) (hM : 0 ≤ M) (ops : List Op) (hops : ∀ op ∈ ops, OpCap M op) (s' : State) (id : Nat)
+    (b : Backoffer) (cfg : Config) (m sl : Int) (e : String) (real base : Int) (att : Nat)
+    (hb : (run init ops).live id = some b) (hcfg : cfg.cap ≤ M)
+    (h : step (run init ops) (.backoff id cfg m sl e) = (s', .slept real base att) ∨
+         ∃ sig, step (run init ops) (.backoff id cfg m sl e) = (s', .killedAfter sig real base att)) :
+    ∃ f, effFn b cfg = some f ∧ 2 ≤ f.base ∧ (0 ≤ f.cap → 0 ≤ real) := by
+  have hinv := run_SInv hM ops (SInv_init M) hops b (live_some hb).2.2
+  simp only [step, hb] at h
+  obtain ⟨f, hf, ha, _, _, _, _, hr, _, _⟩ := slept_spec h
+  have hfb := (effFn_cap hinv.1 hcfg hf).2
+  refine ⟨f, hf, hfb, ?_⟩
+  intro hc
+  have := sleepAllowed_nonneg f sl ha (by omega) hc
+  rw [hr]
+  unfold realSleep
+  split <;> omega
+
 /-! ## exhaustion reports the longest sleeper -/
 
 /-- Any state (reachable or not): when a call answers "budget exceeded" with error class `k`, the budget really is
@@ -360,6 +392,10 @@ example : ∃ b, (run init sleepOps).bs[0]? = some b ∧ b.tainted = false ∧ 0
 -- budget_step / single_sleep_bound: a live back-offer and a call that sleeps
 example : ((run init [.newPlain 50]).live 0).isSome = true ∧
     (step (run init [.newPlain 50]) (.backoff 0 kcfg 100 500 "-")).2 = .slept 100 500 0 := by decide +kernel
+
+-- expo_within_cap / sleep_nonneg far beyond 2^63: attempt 200 of a base-2 kind still sleeps exactly the cap
+example : expo 2 500 200 = 500 ∧ sleepAllowed { base := 2, cap := 500, jitter := Gen.noJitter, attempts := 200, lastSleep := 500 } 500 = true := by
+  decide +kernel
 
 -- exhausted_answer / exhausted_reports_longest: a state whose next call is refused with the longest sleeper's error
 example : ((run init sleepOps).live 0).isSome = true ∧
